@@ -748,10 +748,20 @@ var c15Ladder = func() []ladderStep {
 	// directed inputs for adjudicated findings (see known_findings.json)
 	out = append(out, ladderStep{Name: "directed-json-template-illformed-utf8", JSON: true, Build: func() []byte { return []byte("\"~}$$<Z\xff%{\xff\xff\"") }})
 	out = append(out, ladderStep{Name: "directed-json-unterminated-string", JSON: true, Build: func() []byte { return []byte("\"a$${<") }})
+	// escapes of code points that are not characters, in every place a quoted string can stand
+	for i, esc := range []string{`\ud800`, `\uDFFF`, `\U0000dc00`, `\udbff`, `\U00110000`, `\Uffffffff`, `\uD83D\uDE00`, `\uFFFF`, `\U0010FFFF`, `\u0000`} {
+		esc := esc
+		out = append(out, ladderStep{Name: fmt.Sprintf("directed-escape-%d", i), Build: func() []byte {
+			return []byte("a = \"" + esc + "\"\nb \"" + esc + "\" {\n  c = foo[\"" + esc + "\"]\n  d = \"x${\"" + esc + "\"}y\"\n  e = {\"" + esc + "\" = 1}\n}\n")
+		}})
+		out = append(out, ladderStep{Name: fmt.Sprintf("directed-json-escape-%d", i), JSON: true, Build: func() []byte {
+			return []byte("{\"a\": \"" + strings.ToLower(esc[:2]) + esc[2:] + "\", \"b\": \"${\\\"" + esc + "\\\"}\"}")
+		}})
+	}
 	out = append(out, ladderStep{Name: "long-heredoc", Build: func() []byte {
 		return []byte("a = <<EOT\n" + strings.Repeat("line ${x} %{ if y }z%{ endif }\n", 1500) + "EOT\n")
 	}})
-	out = append(out, ladderStep{Name: "long-string", Build: func() []byte { return []byte("a = \"" + strings.Repeat("é$%\\n", 12000) + "\"\n") }})
+	out = append(out, ladderStep{Name: "long-string", Build: func() []byte { return []byte("a = \"" + strings.Repeat("é$%\\n", 6000) + "\"\n") }})
 	out = append(out, ladderStep{Name: "many-attrs", Build: func() []byte {
 		var sb strings.Builder
 		for i := 0; i < 4000; i++ {
